@@ -28,6 +28,9 @@ type c12Entry struct {
 type c12Case struct {
 	Tree []c12Entry `json:"tree"`
 	Dsts []string   `json:"dsts"` // rename destinations tried for every directory
+	// Rebuilt: the calls run on instances whose index was rebuilt from the tape (names are
+	// then stored relative to the root) instead of on copies of the live index
+	Rebuilt bool `json:"rebuilt,omitempty"`
 }
 
 var c12Universe = []string{"a", "ab", "a_", "a%", "A", "a b", ".a", "a.", "é", "_", "%", "aa", "b", "B", "a\\", "a?", "a*", "[ab]", "a[b]", "?", "*", "😀", "𝄞a", "a😀", "\uffff", "\uffffz", "~", "\x7f", "..x", "...", "a..", "-"}
@@ -116,7 +119,9 @@ func c12Run(f failer, cfg world.Cfg, c c12Case) {
 		_ = os.MkdirAll(filepath.Join(d, "drv"), 0700)
 		drv, db := filepath.Join(d, "drv", "drive.tar"), filepath.Join(d, "index.sqlite")
 		_ = world.CopyFile(drv, base.W.Drive)
-		_ = world.CopyFile(db, base.W.DB)
+		if !c.Rebuilt {
+			_ = world.CopyFile(db, base.W.DB)
+		}
 		r, err := hist.NewRunner(cfg, world.Opts{Dir: d, Drive: drv, DB: db})
 		if err != nil {
 			checkObs(f, hangOnly(err), "construct")
@@ -332,6 +337,10 @@ func TestC12(t *testing.T) {
 			default:
 				c.Dsts = append(c.Dsts, "/"+rapid.SampledFrom(c12Universe).Draw(t, "dstname"))
 			}
+		}
+		c.Rebuilt = rapid.IntRange(0, 2).Draw(t, "rebuilt") == 0
+		if c.Rebuilt {
+			live.S.Class("index:rebuilt")
 		}
 		c12Run(t, cfg, c)
 	})
